@@ -19,6 +19,7 @@
 #include "modular.h"
 #include "modular-balanced.h"
 #include "modular-log16.h"
+#include "modular-extended.h"
 #include "montgomery.h"
 #include "gfq.h"
 #include "gfqext.h"
@@ -53,12 +54,23 @@ struct Sink {
 template <class F, class E> static void show(OS& o, const F& f, const E& e) { Integer i; f.convert(i, e); o << i << ","; }
 template <class T> static Integer toI(const T& x) { Integer r; Caster(r, x); return r; }
 
+// the reference-taking overloads of characteristic / cardinality (GFqExtFast hides the Integer& one and adds its own accessors)
+template <class F> static void acc_overloads(const F& f, OS& o) { Integer ci, ki; uint64_t cu = 0; f.characteristic(ci); f.cardinality(ki); f.characteristic(cu); o << ci << "," << ki << "," << cu << ","; }
+template <class T> static void acc_overloads(const GFqExtFast<T>& f, OS& o) { typename GFqExtFast<T>::Residu_t cu = 0; Integer ki; f.characteristic(cu); f.cardinality(ki);
+    o << cu << "," << ki << "," << f.bits() << "," << f.base() << "," << f.mask() << "," << f.maxdot() << ","; }
+template <class T> static void acc_overloads(const GFqExt<T>& f, OS& o) { acc_overloads(static_cast<const GFqExtFast<T>&>(f), o); }
+
 // the ring interface shared by Modular<*>, ModularBalanced<*>, Montgomery<*>, Modular<Log16>, GFqDom, GFqExtFast, GFqExt
 template <class F> static void probe_ring(const F& f, OS& o, bool dbl = true) {
     typedef typename F::Element E;
     Integer ch = toI(f.characteristic()), ca = toI(f.cardinality());
     o << "ch=" << ch << " card=" << ca << " z="; show(o, f, f.zero); o << " o="; show(o, f, f.one); o << " m="; show(o, f, f.mOne);
     o << " t=" << f.isZero(f.zero) << f.isOne(f.one) << f.isMOne(f.mOne) << f.isZero(f.one) << f.areEqual(f.one, f.mOne);
+    // every accessor / constant (a stale derived member after an assignment shows here even when the arithmetic is right)
+    { o << " acc="; acc_overloads(f, o); o << toI(f.residu()) << "," << toI(f.size()) << ",";
+      show(o, f, f.minElement()); show(o, f, f.maxElement());
+      E t; f.init(t); f.add(t, f.mOne, f.one); o << f.isZero(t); f.neg(t, f.one); o << f.areEqual(t, f.mOne) << f.isMOne(t); f.mul(t, f.mOne, f.mOne); o << f.isOne(t);
+      f.init(t, Integer(-1)); o << f.isMOne(t) << f.areEqual(t, f.mOne) << f.isUnit(f.mOne) << f.isUnit(f.one) << f.isUnit(f.zero); }
     E a, b, c, r; f.init(a); f.init(b); f.init(c); f.init(r);
     for (int i = 0; i < NV; ++i) {
         f.init(a, Integer(VALS[i])); o << " i" << i << "="; show(o, f, a);
@@ -89,7 +101,16 @@ template <class F> static void probe_gfq(const F& f, Sink& s, bool dbl = true) {
     OS& o = s.o;
     s.part("misc");
     o << " e=" << f.exponent() << " g="; show(o, f, f.generator()); o << " s=" << f.size() << " r=" << f.residu();
-    o << " ir=" << f.irreducible();
+    o << " ir=" << f.irreducible() << " sg="; show(o, f, f.sage_generator()); { E g; f.generator(g); o << " G="; show(o, f, g); }
+    o << " zp=" << f.zech2padic((typename F::Residu_t)1) << "," << f.padic2zech((typename F::Residu_t)1);
+    // arithmetic inside the prime subfield, printed as integers: whatever irreducible polynomial / generator the constructor chose,
+    // these are the integers modulo p (specification oracle on the python side)
+    s.text("pf");
+    { long pp = (long)f.characteristic(); E x, y, z;
+      for (long i = 0; i < 6; ++i) for (long j = 1; j < 4; ++j) {
+          long ai = (i * 5 + 1) % pp, bj = (j * 3 + 2) % pp; f.init(x, (int64_t)ai); f.init(y, (int64_t)bj); Integer back;
+          f.add(z, x, y); f.convert(back, z); o << back << "."; f.mul(z, x, y); f.convert(back, z); o << back << "."; f.sub(z, x, y); f.convert(back, z); o << back << ".";
+          f.neg(z, x); f.convert(back, z); o << back << "."; if (!f.isZero(y)) { f.div(z, x, y); f.convert(back, z); o << back; } o << ";"; } }
     // element from a polynomial over the prime field (GFqDom::init(Rep&, Vector)); coefficients are prime-field elements,
     // whose representation is an index below p
     long p = (long)f.characteristic();
@@ -121,6 +142,10 @@ template <class F> static void probe_extension(const F& f, OS& o) {
     Integer ch = toI(f.characteristic()), ca = toI(f.cardinality());
     o << "ch=" << ch << " card=" << ca << " e=" << f.exponent() << " z="; f.write(o, f.zero); o << " o="; f.write(o, f.one); o << " m="; f.write(o, f.mOne);
     o << " ir="; f.write(o, f.irreducible());
+    { Integer ci, ki; int64_t cl = 0; f.characteristic(ci); f.cardinality(ki); f.characteristic(cl); E ir; f.irreducible(ir);
+      o << " acc=" << ci << "," << ki << "," << cl << "," << toI(f.residu()) << "," << toI(f.order()) << "," << f.extension_type() << ","
+        << toI(f.base_field().characteristic()) << "," << toI(f.base_field().cardinality()) << "," << toI(f.polynomial_domain().getdomain().characteristic()) << ",";
+      f.write(o, ir); E t; f.add(t, f.mOne, f.one); o << "," << f.isZero(t) << f.isOne(f.one) << f.isMOne(f.mOne) << f.isUnit(f.one); f.neg(t, f.one); o << f.areEqual(t, f.mOne); }
     E a, b, c, r;
     for (int i = 0; i < NV; i += 1) {
         f.init(a, Integer(VALS[i] < 0 ? -VALS[i] * 31 : VALS[i] * 977 + 3)); f.init(b, Integer(VALS[(i + 3) % NV] < 0 ? 4242 : VALS[(i + 3) % NV] + 11));
@@ -147,6 +172,8 @@ template <class PD> static void probe_poly(const PD& pd, OS& o, bool factor) {
     pd.mul(t, a, a); pd.mulin(t, b); pd.mod(r, t, a); o << " m="; pd.write(o, r);
     Degree d; pd.degree(d, t); o << " deg=" << d.value();
     o << " z="; pd.write(o, pd.zero); o << " o="; pd.write(o, pd.one); o << " t=" << pd.isZero(pd.zero) << pd.isOne(pd.one) << pd.areEqual(a, b);
+    o << " mo="; pd.write(o, pd.mOne); pd.add(t, pd.mOne, pd.one); o << pd.isZero(t); pd.neg(t, pd.one); o << pd.areEqual(t, pd.mOne);
+    o << " dom=" << toI(pd.getdomain().cardinality()) << ","; pd.getdomain().write(o, pd.getdomain().mOne); o << "," << pd.getdomain().isMOne(pd.getdomain().mOne) << " X=" << pd.getIndeter();
     typename PD::Type_t lc; pd.leadcoef(lc, a); o << " lc="; pd.getdomain().write(o, lc);
     pd.diff(t, a); o << " da="; pd.write(o, t);
     o << " ch=" << toI(pd.getdomain().characteristic());
@@ -210,8 +237,6 @@ template <class D, void (*PROBE)(D&, Sink&)> struct BoxM : Any {           // pr
     void probe(Sink& s) { PROBE(d, s); }
 };
 
-static const char* BIGP[] = {"1000000000000000000000007", "170141183460469231731687303715884105727", "18446744073709551629"};
-
 template <class F> static void pr_ring(const F& f, Sink& s) { s.part("ring"); probe_ring(f, s.o); }
 template <class F> static void pr_gfq(const F& f, Sink& s) { probe_gfq(f, s); }
 template <class F> static void pr_gfqext(const F& f, Sink& s) { probe_gfqext(f, s, true); }
@@ -224,51 +249,178 @@ template <class F> static void pr_rns(F& f, Sink& s) { s.part("rns"); probe_rns(
 
 #define RINGBOX(T) Box<T, pr_ring<T> >
 
-static Any* make(const std::string& cls, int P) {
+// Construction.  P = parameter set (0..3), V = constructor overload:
+//   V = 0  the usual constructor                                   V = 3  default constructor, then assignment from a temporary
+//   V = 1, 2, 4, 5  the other overloads of the class (see below); make() returns 0 when the class has no such overload.
+// In a history the construct event carries q = P + 4 * V  (cN:q).
+// Prescribed polynomials for the GFqDom / GFqExtFast constructors (coefficients low degree first), per parameter set of GP/GE:
+//   GF(3^2) = F3[x]/(x^2+1), generator x+1;  GF(5^2) = F5[x]/(x^2+2), generator x+1;  GF(2^4) = F2[x]/(x^4+x+1), generator x;
+//   parameter set 3 is GF(7) for the automatic constructor and GF(7^2) = F7[x]/(x^2+1), generator x+2, for the polynomial overloads
+//   (the polynomial constructors are not meant for e = 1)
+static const long GF_I[4][5] = {{1, 0, 1, -1, -1}, {2, 0, 1, -1, -1}, {1, 1, 0, 0, 1}, {1, 0, 1, -1, -1}};
+static const long GF_G[4][3] = {{1, 1, -1}, {1, 1, -1}, {0, 1, -1}, {2, 1, -1}};
+template <class T> static std::vector<T> gf_vec(const long* a, int n) { std::vector<T> v; for (int i = 0; i < n && a[i] >= 0; ++i) v.push_back((T)a[i]); return v; }
+template <class B, class D> static Any* dflt_assign(const D& tmp) { D x; x = tmp; return new B(x); }      // arrays of domains are filled this way
+static const char* BIGP[] = {"1000000000000000000000007", "170141183460469231731687303715884105727", "18446744073709551629"};
+
+// Modular<T> built on Modular_implem: Residu_t overload, the Source template with other source types, default + assignment
+template <class M, class S> static Any* make_modular(S p, int V) {
+    typedef Box<M, pr_ring<M> > B;
+    if (V == 0) return new B(M(p));
+    if (V == 1) return new B(M((typename M::Residu_t)p));
+    if (V == 2) return new B(M(Integer((uint64_t)p)));                 // template<Source> Modular_implem(const Source&), Source = Integer
+    if (V == 3) return dflt_assign<B, M>(M(p));
+    if (V == 4) return new B(M((double)p));                            // Source = double
+    if (V == 5) { M a(p); M b((typename M::Residu_t)3); b = a; return new B(b); }   // built for another modulus, then assigned
+    return 0;
+}
+template <class M, class S> static Any* make_ring3(S p, int V) {          // ModularBalanced<T>, Montgomery<T>, Modular<Log16>
+    typedef Box<M, pr_ring<M> > B;
+    if (V == 0) return new B(M(p));
+    if (V == 3) return dflt_assign<B, M>(M(p));
+    if (V == 5) { M a(p); M b((S)5); b = a; return new B(b); }
+    return 0;
+}
+template <class G, void (*PR)(const G&, Sink&), class T> static Any* make_gfq(int P, int V, bool ext) {
+    static const long GP[] = {3, 5, 2, 7}, GE[] = {2, 2, 4, 1};
+    typedef Box<G, PR> B; typedef typename G::Residu_t U;
+    U p = (U)GP[P], e = (U)GE[P];
+    if (V == 0) return new B(G(p, (ext && e == 1) ? (U)2 : e));
+    if (V == 3) return dflt_assign<B, G>(G(p, (ext && e == 1) ? (U)2 : e));
+    if (V == 1) return new B(G(p, e == 1 ? (U)2 : e, gf_vec<T>(GF_I[P], 5)));
+    return 0;
+}
+template <class T> static Any* make_gfqdom(int P, int V) {
+    static const long GP[] = {3, 5, 2, 7}, GE[] = {2, 2, 4, 1};
+    typedef GFqDom<T> G; typedef Box<G, pr_gfq<G> > B; typedef typename G::Residu_t U;
+    U p = (U)GP[P], e = (U)(GE[P] == 1 ? 2 : GE[P]);
+    if (V == 2) return new B(G(p, e, gf_vec<T>(GF_I[P], 5), gf_vec<T>(GF_G[P], 3)));                 // prescribed irreducible AND generator
+    if (V == 4) return new B(G(p, e, gf_vec<int>(GF_I[P], 5), gf_vec<int>(GF_G[P], 3)));             // the same template with another Vector type
+    if (V == 5) { std::deque<long> i, g; for (int k = 0; k < 5 && GF_I[P][k] >= 0; ++k) i.push_back(GF_I[P][k]); for (int k = 0; k < 3 && GF_G[P][k] >= 0; ++k) g.push_back(GF_G[P][k]);
+                  return new B(G(p, e, i)); }                                                              // 3-argument template, Vector = deque
+    return make_gfq<G, pr_gfq<G>, T>(P, V, false);
+}
+
+static bool known_class(const std::string& cls);
+static Any* make(const std::string& cls, int P, int V = 0) {
     static const long SMALL[] = {7, 101, 46337, 3};          // valid for every word ring (46337^2 < 2^31)
     static const long ODD[] = {7, 101, 40503, 3};
     static const long L16[] = {7, 101, 16381, 3};
     static const long GP[] = {3, 5, 2, 7}, GE[] = {2, 2, 4, 1};
     P &= 3;
-    if (cls == "Modular<int32_t>") return new RINGBOX(Modular<int32_t>)(Modular<int32_t>((int32_t)SMALL[P]));
-    if (cls == "Modular<uint32_t>") return new RINGBOX(Modular<uint32_t>)(Modular<uint32_t>((uint32_t)SMALL[P]));
-    if (cls == "Modular<int64_t>") return new RINGBOX(Modular<int64_t>)(Modular<int64_t>((int64_t)(P == 2 ? 2147483629L : SMALL[P])));
-    if (cls == "Modular<uint64_t>") return new RINGBOX(Modular<uint64_t>)(Modular<uint64_t>((uint64_t)(P == 2 ? 4294967291UL : SMALL[P])));
-    if (cls == "Modular<float>") return new RINGBOX(Modular<float>)(Modular<float>((float)(P == 2 ? 2039 : SMALL[P])));
-    if (cls == "Modular<double>") return new RINGBOX(Modular<double>)(Modular<double>((double)(P == 2 ? 67108859 : SMALL[P])));
-    if (cls == "Modular<Integer>") return new RINGBOX(Modular<Integer>)(Modular<Integer>(P < 3 ? Integer(BIGP[P]) : Integer(101)));
-    if (cls == "Modular<ruint<7>>") { typedef Modular<RecInt::ruint<7> > M; RecInt::ruint<7> p; Integer ip(P < 3 ? BIGP[P == 1 ? 2 : P] : "101"); Caster(p, ip); return new RINGBOX(M)(M(p)); }
-    if (cls == "ModularBalanced<int32_t>") return new RINGBOX(ModularBalanced<int32_t>)(ModularBalanced<int32_t>((int32_t)ODD[P]));
-    if (cls == "ModularBalanced<int64_t>") return new RINGBOX(ModularBalanced<int64_t>)(ModularBalanced<int64_t>((int64_t)(P == 2 ? 2147483629L : ODD[P])));
-    if (cls == "ModularBalanced<float>") return new RINGBOX(ModularBalanced<float>)(ModularBalanced<float>((float)(P == 2 ? 2039 : ODD[P])));
-    if (cls == "ModularBalanced<double>") return new RINGBOX(ModularBalanced<double>)(ModularBalanced<double>((double)(P == 2 ? 67108859 : ODD[P])));
-    if (cls == "Montgomery<int32_t>") return new RINGBOX(Montgomery<int32_t>)(Montgomery<int32_t>((int32_t)ODD[P]));
-    if (cls == "Montgomery<ruint<7>>") { typedef Montgomery<RecInt::ruint<7> > M; RecInt::ruint<7> p; Integer ip(P < 3 ? BIGP[P == 1 ? 2 : P] : "101"); Caster(p, ip); return new RINGBOX(M)(M(p)); }
-    if (cls == "Modular<Log16>") return new RINGBOX(Modular<Log16>)(Modular<Log16>((Modular<Log16>::Residu_t)L16[P]));
-    if (cls == "GFqDom<int64_t>") { typedef GFqDom<int64_t> G; return new Box<G, pr_gfq<G> >(G((uint64_t)GP[P], (uint64_t)GE[P])); }
-    if (cls == "GFqDom<int32_t>") { typedef GFqDom<int32_t> G; return new Box<G, pr_gfq<G> >(G((uint32_t)GP[P], (uint32_t)GE[P])); }
-    if (cls == "GFqExtFast<int64_t>") { typedef GFqExtFast<int64_t> G; return new Box<G, pr_gfqextfast<G> >(G((uint64_t)GP[P], (uint64_t)(GE[P] == 1 ? 2 : GE[P]))); }
-    if (cls == "GFqExt<int64_t>") { typedef GFqExt<int64_t> G; return new Box<G, pr_gfqext<G> >(G((uint64_t)GP[P], (uint64_t)(GE[P] == 1 ? 2 : GE[P]))); }
-    if (cls == "Extension<GFqDom<int64_t>>") { typedef Extension<GFqDom<int64_t> > X; GFqDom<int64_t> B((uint64_t)GP[P], 1); return new Box<X, pr_ext<X> >(X(B, (uint64_t)(2 + (P & 1)))); }
-    if (cls == "Poly1Dom<Modular<double>,Dense>") { typedef Poly1Dom<Modular<double>, Dense> PD; Modular<double> B((double)SMALL[P]); return new Box<PD, pr_poly<PD> >(PD(B, Indeter(P & 1 ? "Y" : "X"))); }
-    if (cls == "Poly1Dom<GFqDom<int64_t>,Dense>") { typedef Poly1Dom<GFqDom<int64_t>, Dense> PD; GFqDom<int64_t> B((uint64_t)GP[P], (uint64_t)GE[P]); return new Box<PD, pr_poly<PD> >(PD(B, Indeter(P & 1 ? "Y" : "X"))); }
-    if (cls == "Poly1FactorDom<Modular<double>,Dense>") { typedef Poly1FactorDom<Modular<double>, Dense> PD; Modular<double> B((double)SMALL[P]); return new Box<PD, pr_fact<PD> >(PD(B, Indeter(P & 1 ? "Y" : "X"))); }
-    if (cls == "Poly1FactorDom<GFqDom<int64_t>,Dense>") { typedef Poly1FactorDom<GFqDom<int64_t>, Dense> PD; GFqDom<int64_t> B((uint64_t)GP[P], (uint64_t)GE[P]); return new Box<PD, pr_fact<PD> >(PD(B, Indeter(P & 1 ? "Y" : "X"))); }
+    if (cls == "Modular<int32_t>") return make_modular<Modular<int32_t> >((int32_t)SMALL[P], V);
+    if (cls == "Modular<uint32_t>") return make_modular<Modular<uint32_t> >((uint32_t)SMALL[P], V);
+    if (cls == "Modular<int64_t>") return make_modular<Modular<int64_t> >((int64_t)(P == 2 ? 2147483629L : SMALL[P]), V);
+    if (cls == "Modular<uint64_t>") return make_modular<Modular<uint64_t> >((uint64_t)(P == 2 ? 4294967291UL : SMALL[P]), V);
+    if (cls == "Modular<float>") return make_modular<Modular<float> >((float)(P == 2 ? 2039 : SMALL[P]), V);
+    if (cls == "Modular<double>") return make_modular<Modular<double> >((double)(P == 2 ? 67108859 : SMALL[P]), V);
+    { static const long S8[] = {7, 11, 5, 3}, S16[] = {7, 101, 181, 3};      // p (p-1) must fit the compute type
+      if (cls == "Modular<int8_t>") return make_modular<Modular<int8_t> >((int8_t)S8[P], V);
+      if (cls == "Modular<uint8_t>") return make_modular<Modular<uint8_t> >((uint8_t)S8[P], V);
+      if (cls == "Modular<int16_t>") return make_modular<Modular<int16_t> >((int16_t)S16[P], V);
+      if (cls == "Modular<uint16_t>") return make_modular<Modular<uint16_t> >((uint16_t)S16[P], V); }
+    if (cls == "ModularExtended<double>") { typedef ModularExtended<double> M; typedef RINGBOX(M) B; double p = (double)(P == 2 ? 1125899906842597LL : SMALL[P]);
+        if (V == 0) return new B(M(p));
+        if (V == 1) return new B(M((uint64_t)p));                    // template<XXX> ModularExtended(const XXX&), XXX = uint64_t
+        if (V == 2) return new B(M(Integer((uint64_t)p)));
+        if (V == 3) return dflt_assign<B, M>(M(p));
+        if (V == 5) { M a(p); M b(5.0); b = a; return new B(b); }
+        return 0; }
+    if (cls == "ModularExtended<float>") { typedef ModularExtended<float> M; typedef RINGBOX(M) B; float p = (float)(P == 2 ? 2097143 : SMALL[P] == 46337 ? 2039 : SMALL[P]);
+        if (V == 0) return new B(M(p));
+        if (V == 1) return new B(M((uint64_t)p));
+        if (V == 3) return dflt_assign<B, M>(M(p));
+        if (V == 5) { M a(p); M b(5.0f); b = a; return new B(b); }
+        return 0; }
+    if (cls == "Modular<Integer>") { typedef Modular<Integer> M; typedef RINGBOX(M) B; Integer p(P < 3 ? Integer(BIGP[P]) : Integer(101));
+        if (V == 0 || V == 1) return new B(M(p));
+        if (V == 2) return P == 3 ? new B(M((int64_t)101)) : 0;                  // Source = int64_t
+        if (V == 3) return dflt_assign<B, M>(M(p));
+        if (V == 5) { M a(p); M b(Integer(3)); b = a; return new B(b); }
+        return 0; }
+    if (cls == "Modular<ruint<7>>") { typedef Modular<RecInt::ruint<7> > M; typedef RINGBOX(M) B; RecInt::ruint<7> p; Integer ip(P < 3 ? BIGP[P == 1 ? 2 : P] : "101"); Caster(p, ip);
+        if (V == 0 || V == 1) return new B(M(p));
+        if (V == 2) return new B(M(ip));                                          // Source = Integer
+        if (V == 3) return dflt_assign<B, M>(M(p));
+        if (V == 5) { M a(p); M b(RecInt::ruint<7>(3)); b = a; return new B(b); }
+        return 0; }
+    if (cls == "ModularBalanced<int32_t>") return make_ring3<ModularBalanced<int32_t> >((int32_t)ODD[P], V);
+    if (cls == "ModularBalanced<int64_t>") return make_ring3<ModularBalanced<int64_t> >((int64_t)(P == 2 ? 2147483629L : ODD[P]), V);
+    if (cls == "ModularBalanced<float>") return make_ring3<ModularBalanced<float> >((float)(P == 2 ? 2039 : ODD[P]), V);
+    if (cls == "ModularBalanced<double>") return make_ring3<ModularBalanced<double> >((double)(P == 2 ? 67108859 : ODD[P]), V);
+    if (cls == "Montgomery<int32_t>") { typedef Montgomery<int32_t> M; if (V == 1) return new RINGBOX(M)(M((M::Residu_t)ODD[P], 1)); return make_ring3<M>((M::Residu_t)ODD[P], V); }
+    if (cls == "Montgomery<ruint<7>>") { typedef Montgomery<RecInt::ruint<7> > M; typedef RINGBOX(M) B; RecInt::ruint<7> p; Integer ip(P < 3 ? BIGP[P == 1 ? 2 : P] : "101"); Caster(p, ip);
+        if (V == 0) return new B(M(p));
+        if (V == 3) return dflt_assign<B, M>(M(p));
+        if (V == 5) { M a(p); M b(RecInt::ruint<7>(5)); b = a; return new B(b); }
+        return 0; }
+    if (cls == "Modular<Log16>") return make_ring3<Modular<Log16> >((Modular<Log16>::Residu_t)L16[P], V);
+    if (cls == "GFqDom<int64_t>") return make_gfqdom<int64_t>(P, V);
+    if (cls == "GFqDom<int32_t>") return make_gfqdom<int32_t>(P, V);
+    if (cls == "GFqExtFast<int64_t>") { typedef GFqExtFast<int64_t> G; return make_gfq<G, pr_gfqextfast<G>, int64_t>(P, V, true); }
+    if (cls == "GFqExt<int64_t>") { typedef GFqExt<int64_t> G; typedef Box<G, pr_gfqext<G> > B; uint64_t e = (uint64_t)(GE[P] == 1 ? 2 : GE[P]);      // no polynomial overload
+        if (V == 0) return new B(G((uint64_t)GP[P], e));
+        if (V == 3) return dflt_assign<B, G>(G((uint64_t)GP[P], e));
+        return 0; }
+    if (cls == "Extension<GFqDom<int64_t>>") { typedef Extension<GFqDom<int64_t> > X; typedef Box<X, pr_ext<X> > B; GFqDom<int64_t> Bf((uint64_t)GP[P], 1); uint64_t ex = (uint64_t)(2 + (P & 1));
+        if (V == 0) return new B(X(Bf, ex));
+        if (V == 1) return new B(X((X::Residu_t)GP[P], (X::Residu_t)(P == 2 ? 12 : 9), Indeter("Y")));     // (p, e, Indeter): exponent above the table limit of the base field
+        if (V == 2) { X::Pol_t PD(Bf, Indeter("Y")); X::PolElement ir; PD.init(ir, Degree((int64_t)ex));      // prescribed irreducible: x^ex + x + c, first c that works
+                      X::PolElement x1, c; PD.init(x1, Degree(1)); PD.addin(ir, x1);
+                      Poly1FactorDom<GFqDom<int64_t>, Dense> FD(Bf, Indeter("Y"));
+                      for (int k = 1; k < GP[P]; ++k) { X::PolElement t; PD.init(c, Degree(0), k); PD.add(t, ir, c); if (FD.is_irreducible(t)) return new B(X(PD, t)); }
+                      return 0; }
+        if (V == 3) return dflt_assign<B, X>(X(Bf, ex));
+        return 0; }
+    if (cls == "Poly1Dom<Modular<double>,Dense>") { typedef Poly1Dom<Modular<double>, Dense> PD; typedef Box<PD, pr_poly<PD> > B; Modular<double> Bf((double)SMALL[P]);
+        if (V == 0) return new B(PD(Bf, Indeter(P & 1 ? "Y" : "X")));
+        if (V == 3) return dflt_assign<B, PD>(PD(Bf, Indeter(P & 1 ? "Y" : "X")));
+        return 0; }
+    if (cls == "Poly1Dom<GFqDom<int64_t>,Dense>") { typedef Poly1Dom<GFqDom<int64_t>, Dense> PD; typedef Box<PD, pr_poly<PD> > B;
+        if (V == 0) { GFqDom<int64_t> Bf((uint64_t)GP[P], (uint64_t)GE[P]); return new B(PD(Bf, Indeter(P & 1 ? "Y" : "X"))); }
+        if (V == 2) { GFqDom<int64_t> Bf((uint64_t)GP[P], (uint64_t)(GE[P] == 1 ? 2 : GE[P]), gf_vec<int64_t>(GF_I[P], 5), gf_vec<int64_t>(GF_G[P], 3)); return new B(PD(Bf, Indeter(P & 1 ? "Y" : "X"))); }
+        if (V == 3) { GFqDom<int64_t> Bf((uint64_t)GP[P], (uint64_t)GE[P]); return dflt_assign<B, PD>(PD(Bf, Indeter(P & 1 ? "Y" : "X"))); }
+        return 0; }
+    if (cls == "Poly1FactorDom<Modular<double>,Dense>") { typedef Poly1FactorDom<Modular<double>, Dense> PD; typedef Box<PD, pr_fact<PD> > B; Modular<double> Bf((double)SMALL[P]);
+        if (V == 0) return new B(PD(Bf, Indeter(P & 1 ? "Y" : "X")));
+        if (V == 1) { Poly1Dom<Modular<double>, Dense> Q(Bf, Indeter(P & 1 ? "Y" : "X")); return new B(PD(Q, GivRandom(1234))); }      // (Poly1Dom, generator)
+        if (V == 3) return dflt_assign<B, PD>(PD(Bf, Indeter(P & 1 ? "Y" : "X")));
+        return 0; }
+    if (cls == "Poly1FactorDom<GFqDom<int64_t>,Dense>") { typedef Poly1FactorDom<GFqDom<int64_t>, Dense> PD; typedef Box<PD, pr_fact<PD> > B;
+        if (V == 2) { GFqDom<int64_t> Bf((uint64_t)GP[P], (uint64_t)(GE[P] == 1 ? 2 : GE[P]), gf_vec<int64_t>(GF_I[P], 5), gf_vec<int64_t>(GF_G[P], 3)); return new B(PD(Bf, Indeter(P & 1 ? "Y" : "X"))); }
+        GFqDom<int64_t> Bf((uint64_t)GP[P], (uint64_t)GE[P]);
+        if (V == 0) return new B(PD(Bf, Indeter(P & 1 ? "Y" : "X")));
+        if (V == 1) { Poly1Dom<GFqDom<int64_t>, Dense> Q(Bf, Indeter(P & 1 ? "Y" : "X")); return new B(PD(Q, GivRandom(1234))); }
+        if (V == 3) return dflt_assign<B, PD>(PD(Bf, Indeter(P & 1 ? "Y" : "X")));
+        return 0; }
     if (cls == "IntRNSsystem<vector>") {
-        typedef IntRNSsystem<std::vector, std::allocator> R; std::vector<Integer> pr;
+        typedef IntRNSsystem<std::vector, std::allocator> R; typedef BoxM<R, pr_intrns<R> > B; std::vector<Integer> pr; std::vector<int64_t> pl;
         static const long PS[4][5] = {{3, 5, 7, 0, 0}, {11, 13, 17, 19, 0}, {1000003, 1000033, 999983, 65521, 0}, {2, 3, 5, 0, 0}};
-        for (int k = 0; k < 5 && PS[P][k]; ++k) pr.push_back(Integer(PS[P][k]));
-        return new BoxM<R, pr_intrns<R> >(R(pr));
+        for (int k = 0; k < 5 && PS[P][k]; ++k) { pr.push_back(Integer(PS[P][k])); pl.push_back((int64_t)PS[P][k]); }
+        if (V == 0) return new B(R(pr));
+        if (V == 1) return new B(R(pl));                                  // template<TT> IntRNSsystem(const Container<TT>&)
+        if (V == 3) return dflt_assign<B, R>(R(pr));
+        return 0;
     }
     if (cls == "RNSsystem<Integer,Modular<double>>") {
-        typedef RNSsystem<Integer, Modular<double> > R;
+        typedef RNSsystem<Integer, Modular<double> > R; typedef BoxM<R, pr_rns<R> > B;
         static const long PS[4][5] = {{3, 5, 7, 0, 0}, {11, 13, 17, 19, 0}, {1009, 1013, 65521, 2, 0}, {2, 3, 5, 0, 0}};
         int n = 0; while (n < 5 && PS[P][n]) ++n;
         R::domains dm(n); for (int k = 0; k < n; ++k) dm[k] = Modular<double>((double)PS[P][k]);
-        return new BoxM<R, pr_rns<R> >(R(dm));
+        if (V == 0) return new B(R(dm));
+        if (V == 1) { R x; x.setPrimes(dm); return new B(x); }           // default constructor + setPrimes
+        if (V == 3) return dflt_assign<B, R>(R(dm));
+        return 0;
     }
     return 0;
 }
+static const char* C16_CLASSES[] = {"Modular<int32_t>", "Modular<uint32_t>", "Modular<int64_t>", "Modular<uint64_t>", "Modular<float>", "Modular<double>",
+    "Modular<int8_t>", "Modular<uint8_t>", "Modular<int16_t>", "Modular<uint16_t>", "ModularExtended<double>", "ModularExtended<float>",
+    "Modular<Integer>", "Modular<ruint<7>>", "ModularBalanced<int32_t>", "ModularBalanced<int64_t>", "ModularBalanced<float>", "ModularBalanced<double>",
+    "Montgomery<int32_t>", "Montgomery<ruint<7>>", "Modular<Log16>", "GFqDom<int64_t>", "GFqDom<int32_t>", "GFqExtFast<int64_t>", "GFqExt<int64_t>",
+    "Extension<GFqDom<int64_t>>", "Poly1Dom<Modular<double>,Dense>", "Poly1Dom<GFqDom<int64_t>,Dense>", "Poly1FactorDom<Modular<double>,Dense>",
+    "Poly1FactorDom<GFqDom<int64_t>,Dense>", "IntRNSsystem<vector>", "RNSsystem<Integer,Modular<double>>", 0};
+static bool known_class(const std::string& cls) { for (int i = 0; C16_CLASSES[i]; ++i) if (cls == C16_CLASSES[i]) return true; return false; }
 
 
 // ------------------------------------------------------------------ mutators: re-parameterise a live object in place
@@ -281,12 +433,23 @@ template <class BOX> static bool mutate_read(Any* a, const std::string& cls, int
     b->d.read(ss);
     return true;
 }
+// ModularExtended<T>::read(istream&) reads the bare modulus
+template <class BOX> static bool mutate_read_plain(Any* a, const std::string& cls, int P) {
+    BOX* b = static_cast<BOX*>(a);
+    Any* f = make(cls, P); Integer p = toI(static_cast<BOX*>(f)->d.characteristic()); delete f;
+    std::stringstream ss; ss << p;
+    b->d.read(ss);
+    return true;
+}
 #define MUT_READ(NAME, T) if (cls == NAME) return mutate_read<RINGBOX(T) >(a, cls, P);
 static bool mutate(const std::string& cls, Any* a, int P) {
     P &= 3;
     MUT_READ("Modular<int32_t>", Modular<int32_t>) MUT_READ("Modular<uint32_t>", Modular<uint32_t>) MUT_READ("Modular<int64_t>", Modular<int64_t>)
     MUT_READ("Modular<uint64_t>", Modular<uint64_t>) MUT_READ("Modular<float>", Modular<float>) MUT_READ("Modular<double>", Modular<double>)
     MUT_READ("Modular<Integer>", Modular<Integer>) MUT_READ("Modular<Log16>", Modular<Log16>)
+    if (cls == "ModularExtended<double>") return mutate_read_plain<RINGBOX(ModularExtended<double>) >(a, cls, P);
+    if (cls == "ModularExtended<float>") return mutate_read_plain<RINGBOX(ModularExtended<float>) >(a, cls, P);
+    MUT_READ("Modular<int8_t>", Modular<int8_t>) MUT_READ("Modular<uint8_t>", Modular<uint8_t>) MUT_READ("Modular<int16_t>", Modular<int16_t>) MUT_READ("Modular<uint16_t>", Modular<uint16_t>)
     if (cls == "RNSsystem<Integer,Modular<double>>") {
         typedef RNSsystem<Integer, Modular<double> > R;
         Any* f = make(cls, P); R& src = static_cast<BoxM<R, pr_rns<R> >*>(f)->d;
